@@ -105,7 +105,7 @@ theorem C18_dump_validate_roundtrip (xenv : XEnv) (e : Inst) (h : e.wf xenv = tr
 /-- non-vacuity: a `StopEvent` subclass with a typed field, a nested model, dynamic fields
 called `_data`, `result` and `score`, and a structured result -/
 def exStopShape : Shape :=
-  { module := "app.events", name := "Scored", kind := .stop, ancestors := ["StopEvent"],
+  { module := "app.events", name := "Scored", qualname := "Scored", kind := .stop, ancestors := ["StopEvent"],
     fields := [{ name := "score", ty := .int, dflt := none },
                { name := "inner", ty := .opt (.model [("a", .int), ("b", .list .str)]), dflt := some .null }] }
 def exStop : Inst :=
@@ -146,10 +146,10 @@ theorem C18_json_container_guard_needed :
      | _ => false) = true := by decide
 
 /-- … while the very same dict *inside an event* is carried unchanged. -/
-example : deserializeValue [("workflows.events.Event", ⟨"workflows.events", "Event", .event, [], []⟩)] []
-    (serializeValue (.model ⟨⟨"workflows.events", "Event", .event, [], []⟩, [],
+example : deserializeValue [("workflows.events.Event", (Shape.top "workflows.events" "Event" .event [] []))] []
+    (serializeValue (.model ⟨(Shape.top "workflows.events" "Event" .event [] []), [],
       [("p", .obj [("__is_pydantic", .bool true), ("qualified_name", .str "a.b"), ("value", .int 1)])], .null⟩))
-    = .ok (.model ⟨⟨"workflows.events", "Event", .event, [], []⟩, [],
+    = .ok (.model ⟨(Shape.top "workflows.events" "Event" .event [] []), [],
       [("p", .obj [("__is_pydantic", .bool true), ("qualified_name", .str "a.b"), ("value", .int 1)])], .null⟩) := by
   apply C18_json_roundtrip <;> decide
 
@@ -191,8 +191,8 @@ def C18_envelope_statement : Prop :=
 
 theorem C18_envelope_refuted : ¬ C18_envelope_statement := by
   intro h
-  have := h [] [] ⟨⟨"pkg.a", "Ev", .event, [], []⟩, [], [("x", .int 1)], .null⟩
-    [⟨"pkg.a", "Ev", .event, [], []⟩, ⟨"pkg.b", "Ev", .event, [], []⟩] (by decide) (by decide) (by decide)
+  have := h [] [] ⟨(Shape.top "pkg.a" "Ev" .event [] []), [], [("x", .int 1)], .null⟩
+    [(Shape.top "pkg.a" "Ev" .event [] []), (Shape.top "pkg.b" "Ev" .event [] [])] (by decide) (by decide) (by decide)
   revert this
   decide
 
@@ -213,7 +213,7 @@ theorem C18_bare_start_roundtrip (cenv : CEnv) (xenv : XEnv) (e : Inst) (registr
   parse_bare cenv xenv e registry hw hb hreg
 
 def exStart : Inst :=
-  { cls := { module := "app.events", name := "Go", kind := .event, ancestors := ["StartEvent"],
+  { cls := { module := "app.events", name := "Go", qualname := "Go", kind := .event, ancestors := ["StartEvent"],
              fields := [{ name := "topic", ty := .str, dflt := none }] },
     typed := [("topic", .str "x")], data := [("value", .int 1)], result := .null }
 example : parse [] [] (.obj (dumpModel exStart)) [] (some exStart.cls) = .ok exStart := by
@@ -222,9 +222,9 @@ example : parse [] [] (.obj (dumpModel exStart)) [] (some exStart.cls) = .ok exS
 /-- the guard is needed: a start event class with a typed field called `value` is taken
 for an envelope and rejected -/
 theorem C18_bare_guard_needed :
-    parse [] [] (.obj (dumpModel ⟨⟨"app.events", "Go", .event, [⟨"value", .int, none⟩], ["StartEvent"]⟩,
+    parse [] [] (.obj (dumpModel ⟨(Shape.top "app.events" "Go" .event [⟨"value", .int, none⟩] ["StartEvent"]),
         [("value", .int 3)], [], .null⟩)) []
-      (some ⟨"app.events", "Go", .event, [⟨"value", .int, none⟩], ["StartEvent"]⟩) = .error .validation := by
+      (some (Shape.top "app.events" "Go" .event [⟨"value", .int, none⟩] ["StartEvent"])) = .error .validation := by
   decide
 
 /-! ## exceptions -/
@@ -290,7 +290,7 @@ theorem C18_exception_field_conforms (xenv : XEnv) (x : ExcVal) (h : excStable x
   simp [conforms, validate, validateExc, this]
 
 def exFailed : Inst :=
-  { cls := { module := "workflows.events", name := "WorkflowFailedEvent", kind := .stop, ancestors := ["StopEvent"],
+  { cls := { module := "workflows.events", name := "WorkflowFailedEvent", qualname := "WorkflowFailedEvent", kind := .stop, ancestors := ["StopEvent"],
              fields := [⟨"step_name", .str, none⟩, ⟨"exception", .exc, none⟩, ⟨"attempts", .int, none⟩,
                         ⟨"elapsed_seconds", .flt, none⟩] },
     typed := [("step_name", .str "s"), ("exception", encodeExc ⟨⟨"builtins.ValueError", true, "", ""⟩, "bad"⟩),
@@ -335,10 +335,10 @@ theorem C18_tick_roundtrip_exact (cenv : CEnv) (xenv : XEnv) (t : Tick)
   rwa [hn] at this
 
 /-! non-vacuity: one concrete tick of each of the eight kinds fits (and the big one is exact) -/
-def exEnvC : CEnv := [(exStopShape.qual, exStopShape), ("workflows.events.Event", ⟨"workflows.events", "Event", .event, [], []⟩)]
+def exEnvC : CEnv := [(exStopShape.qual, exStopShape), ("workflows.events.Event", (Shape.top "workflows.events" "Event" .event [] []))]
 def exEnvX : XEnv := [("builtins.ValueError", ⟨"builtins.ValueError", true, "", ""⟩),
   ("builtins.KeyError", ⟨"builtins.KeyError", true, "'", "'"⟩)]
-def exEv : Inst := ⟨⟨"workflows.events", "Event", .event, [], []⟩, [], [("q", .arr [.int 1, .null])], .null⟩
+def exEv : Inst := ⟨(Shape.top "workflows.events" "Event" .event [] []), [], [("q", .arr [.int 1, .null])], .null⟩
 def exStepResult : Tick :=
   { tag := "step_result",
     vals := [.s (.json (.str "step")), .s (.json (.int 0)), .s (.event exEv),
